@@ -184,7 +184,7 @@ type Sched struct {
 	done chan struct{}
 
 	tasks  []*TaskInfo
-	byKey  map[any]*TaskInfo
+	byKey  map[any][]*TaskInfo // tasks by spawn key (several anonymous tasks may share one key)
 	cur    *TaskInfo
 	live   int
 	policy Policy
@@ -195,6 +195,7 @@ type Sched struct {
 
 	aborting bool
 	ioCount  map[string]int
+	onTick   func(s *Sched, t *TaskInfo, ev *Event)
 
 	// results (read by the root after Run returned)
 	Seq        int
@@ -226,7 +227,7 @@ func Run(tape *Tape, opts Options, body func(env *Env)) *Sched {
 	}
 
 	s := &Sched{Tape: tape, opts: opts, msgs: make(chan msg), done: make(chan struct{}),
-		byKey: map[any]*TaskInfo{}, ioCount: map[string]int{}, Faults: map[string]int{}, Probes: map[string]int{}}
+		byKey: map[any][]*TaskInfo{}, ioCount: map[string]int{}, Faults: map[string]int{}, Probes: map[string]int{}}
 	root := &TaskInfo{Idx: 0, Parent: -1, st: tsRunning, arrived: true}
 	s.tasks = append(s.tasks, root)
 	s.cur = root
@@ -266,6 +267,40 @@ func Run(tape *Tape, opts Options, body func(env *Env)) *Sched {
 	s.call(msg{kind: mDone})
 	<-s.done
 	simhook.H = nil
+	return s
+}
+
+// Attach turns the calling goroutine into the root task of a simulation that
+// lasts until the process exits (used inside the real CLI, whose main calls
+// os.Exit). OnTick, if set, is called in the scheduler goroutine for every event.
+func Attach(tape *Tape, opts Options, onTick func(s *Sched, t *TaskInfo, ev *Event)) *Sched {
+	if opts.MaxEvents == 0 {
+		opts.MaxEvents = 50000000
+	}
+	s := &Sched{Tape: tape, opts: opts, msgs: make(chan msg), done: make(chan struct{}),
+		byKey: map[any][]*TaskInfo{}, ioCount: map[string]int{}, Faults: map[string]int{}, Probes: map[string]int{}}
+	root := &TaskInfo{Idx: 0, Parent: -1, st: tsRunning, arrived: true}
+	s.tasks = append(s.tasks, root)
+	s.cur = root
+	s.live = 1
+	s.Tasks = 1
+	s.onTick = onTick
+	if opts.ForcePolicy {
+		s.policy = opts.FixedPolicy
+	} else {
+		s.policy = Policy(tape.Pick(1, 5, 3, 4, 1, 2))
+	}
+	switch s.policy {
+	case PolPCT:
+		d := tape.Intn(4)
+		for i := 0; i < d; i++ {
+			s.pctCh = append(s.pctCh, tape.Intn(400))
+		}
+	case PolStarve:
+		s.victim = 1 + tape.Intn(8)
+	}
+	simhook.H = s
+	go s.loop()
 	return s
 }
 
@@ -421,6 +456,9 @@ func (s *Sched) event(t *TaskInfo, name string, a, b int64) {
 	if s.opts.KeepTrace {
 		s.Trace = append(s.Trace, ev)
 	}
+	if s.onTick != nil {
+		s.onTick(s, t, &ev)
+	}
 	if s.opts.Hooks.OnEvent != nil && s.Viol == nil {
 		if err := s.opts.Hooks.OnEvent(s, t, &ev); err != nil {
 			s.violate("monitor", err.Error())
@@ -458,7 +496,7 @@ func (s *Sched) loop() {
 		m := <-s.msgs
 
 		if m.kind == mStart {
-			t := s.byKey[m.key]
+			t := s.pendingStart(m.key)
 			if t == nil {
 				// a goroutine the scheduler was never told about: let it run
 				m.reply <- cmd{}
@@ -481,9 +519,12 @@ func (s *Sched) loop() {
 				m.reply <- cmd{}
 				return
 			case mExit:
-				if x := s.byKey[m.key]; x != nil && x.st != tsExited {
-					x.st = tsExited
-					s.live--
+				for _, x := range s.byKey[m.key] {
+					if x.st != tsExited {
+						x.st = tsExited
+						s.live--
+						break
+					}
 				}
 				m.reply <- cmd{}
 			case mDraw:
@@ -539,7 +580,7 @@ func (s *Sched) handle(m msg) bool {
 			c.prio = 1000 + s.Tape.Intn(1000)
 		}
 		s.tasks = append(s.tasks, c)
-		s.byKey[m.key] = c
+		s.byKey[m.key] = append(s.byKey[m.key], c)
 		t.children++
 		s.live++
 		s.Tasks++
@@ -595,7 +636,7 @@ func (s *Sched) handle(m msg) bool {
 		}
 		s.event(t, "exit", 0, 0)
 		t.st = tsExited
-		delete(s.byKey, t.Key)
+		s.dropKey(t)
 		s.live--
 		s.tasks[t.Parent].children--
 		m.reply <- cmd{}
@@ -650,6 +691,31 @@ func (s *Sched) handle(m msg) bool {
 	}
 
 	return true
+}
+
+// pendingStart returns the oldest task spawned with key whose goroutine has not arrived yet.
+func (s *Sched) pendingStart(key any) *TaskInfo {
+	for _, t := range s.byKey[key] {
+		if !t.arrived {
+			return t
+		}
+	}
+	return nil
+}
+
+func (s *Sched) dropKey(t *TaskInfo) {
+	l := s.byKey[t.Key]
+	for i, x := range l {
+		if x == t {
+			l = append(l[:i], l[i+1:]...)
+			break
+		}
+	}
+	if len(l) == 0 {
+		delete(s.byKey, t.Key)
+	} else {
+		s.byKey[t.Key] = l
+	}
 }
 
 func firstLine(s string) string {
@@ -792,7 +858,7 @@ func (s *Sched) pick() {
 			if m.kind != mStart {
 				panic(fmt.Sprintf("sim: message %d from a task while nobody holds the baton", m.kind))
 			}
-			x := s.byKey[m.key]
+			x := s.pendingStart(m.key)
 			if x == nil {
 				m.reply <- cmd{}
 				continue
